@@ -30,13 +30,14 @@ type idleRoles struct {
 	lockHelpers                map[*ssa.Function]string // "W" or "R"
 	callback                   *ssa.Function
 	activity                   string // HandleRead or HandleWrite
+	p                          *core.Prog
 }
 
 func resolveIdle(p *core.Prog) []*idleRoles {
 	var out []*idleRoles
 	hc := lookupNamedT(p.TPkg(""), "HandlerContext")
 	for _, st := range p.StructTypes("") {
-		ir := &idleRoles{t: st, lockHelpers: map[*ssa.Function]string{}}
+		ir := &idleRoles{t: st, lockHelpers: map[*ssa.Function]string{}, p: p}
 		for _, f := range fieldsOfNamed(st) {
 			switch {
 			case isPtrTo(f.Type(), "time", "Timer"):
@@ -627,7 +628,7 @@ func (ir *idleRoles) isResetOnField(x ssa.Instruction) bool {
 	if df != ir.idleF {
 		return false
 	}
-	return nonNilGuarded(x, cc.Args[0])
+	return nonNilGuarded(ir.p, x, cc.Args[0])
 }
 
 type idleEdge struct{ ir *idleRoles }
